@@ -65,3 +65,66 @@ def free_piece_length_arg(x):
     return 26 <= x <= 29
 
 
+
+
+# ----------------------------------------------------------------------------- dict / edit specs (C07, C06, C17)
+EDIT_TOP = ("announce", "url-list", "httpseeds")
+EDIT_INFO = ("comment", "source", "private")
+
+
+@native
+def named(args, f):
+    """the caller named field f: present and not None"""
+    return f in args and args[f] is not None
+
+
+@native
+def cleared(args, f):
+    return f in args and args[f] == ""
+
+
+@native
+def key_index(d, k):
+    ks = list(d.keys())
+    return ks.index(k) if k in d else -1
+
+
+@native
+def same_entry(d1, d2, k):
+    return (k in d1) == (k in d2) and (k not in d1 or d1[k] == d2[k])
+
+
+@native
+def keys_ascending(d):
+    ks = [x.encode() if isinstance(x, str) else bytes(x) for x in d.keys()]
+    return all(a < b for a, b in zip(ks, ks[1:]))
+
+
+@native
+def is_dict(v):
+    return isinstance(v, dict)
+
+
+@native
+def is_str(v):
+    return isinstance(v, str)
+
+
+@native
+def is_list(v):
+    return isinstance(v, list)
+
+
+@native
+def split_ws(s):
+    return s.split()
+
+
+@native
+def first(v):
+    return v[0]
+
+
+@native
+def nonempty_list(v):
+    return isinstance(v, list) and len(v) > 0
